@@ -202,7 +202,9 @@ def run_all(tier):
             os.makedirs(os.path.dirname(efile), exist_ok=True)
             for old in sorted(glob.glob(os.path.join(cdir, "export-%s-*.json" % tier)), key=os.path.getmtime)[:-3]:
                 os.remove(old)
-            json.dump([res, scheds], open(efile, "w"))
+            with open(efile + ".tmp%d" % os.getpid(), "w") as f:
+                json.dump([res, scheds], f)
+            os.replace(efile + ".tmp%d" % os.getpid(), efile)
         results = dict(all=dict(generated=res["generated"], distinct=res["distinct"], depth=res["depth"], wall=round(res["wall"], 1),
                                 schedules=len(scheds), configurations=res["ncfg"], reused_from_cache=bool(res.get("reused"))))
         vp.log("  model: %d configurations, %d generated, %d distinct, depth %d, %.1fs -> %d schedules" % (
@@ -289,7 +291,9 @@ def run_all(tier):
         for old in glob.glob(os.path.join(cdir, "*.json")):
             if time.time() - os.path.getmtime(old) > 6 * 3600:
                 os.remove(old)
-        json.dump(out, open(cfile, "w"))
+        with open(cfile + ".tmp%d" % os.getpid(), "w") as f:
+            json.dump(out, f)
+        os.replace(cfile + ".tmp%d" % os.getpid(), cfile)
         return out
     finally:
         vp.cleanup(wd)
